@@ -4,14 +4,17 @@ package main
 // (leaves serialised by encoding/json, objects assembled here so that member order,
 // duplicates and white space can be chosen), each segment in one of the four base64
 // conventions.  Per token the harness records what the real library calls returned for
-// the decoded segments (the JSON oracle of the model) and the AST itself (for the spec
-// checker, which never sees the oracle).
+// the decoded segments (compared with the model's reference JSON reader by the op json; the
+// model falls back to it only for number literals of more than 1000 bytes) and the AST itself
+// (for the spec checker, which never sees the library's answers except to test the first-byte
+// hypothesis of C18_dispatch on them).
 
 import (
 	"bytes"
 	"encoding/json"
 	"fmt"
 	"math"
+	"math/big"
 	"os"
 	"path/filepath"
 	"sort"
@@ -46,7 +49,8 @@ type c18Val struct {
 	mant int64
 	exp  int
 	b    bool
-	lit  string // JSON text chosen for this value
+	lit  string   // JSON text chosen for this value
+	bigm *big.Int // number: the mantissa when it does not fit an int64
 }
 type c18KV struct {
 	k    string
@@ -60,6 +64,9 @@ func (v c18Val) sx() Sx {
 	case 0:
 		return SL{I(0), S(v.s)}
 	case 1:
+		if v.bigm != nil { // (1 #magnitude exp10 negative)
+			return SL{I(1), SB(new(big.Int).Abs(v.bigm).Bytes()), I(v.exp), Bool(v.bigm.Sign() < 0)}
+		}
 		return SL{I(1), sInt(v.mant), I(v.exp)}
 	case 2:
 		return SL{I(2), Bool(v.b)}
@@ -329,6 +336,189 @@ func c18RandObj(r *Rng, header bool) c18Obj {
 	return o
 }
 
+// ---------- JSON texts that stress the decoding rules of encoding/json ----------
+// A string literal is assembled from pieces; each piece carries its JSON spelling and, written
+// down by hand from RFC 8259 section 7 / the documentation of json.Unmarshal ("invalid UTF-8 or
+// invalid UTF-16 surrogate pairs ... are replaced by U+FFFD"), the bytes it denotes.  No piece
+// ends in a high surrogate escape or in the lead byte of a UTF-8 sequence, so pieces do not
+// combine with their neighbours.
+type c18Piece struct{ lit, want string }
+
+var c18Pieces = []c18Piece{
+	{"a", "a"}, {"xyz", "xyz"}, {" ", " "}, {"~", "~"}, {"17", "17"}, {"0", "0"}, {"-", "-"}, {"'", "'"}, {"{}", "{}"}, {"[", "["},
+	{`\"`, `"`}, {`\\`, `\`}, {`\/`, `/`}, {"/", "/"}, {`\b`, "\b"}, {`\f`, "\f"}, {`\n`, "\n"}, {`\r`, "\r"}, {`\t`, "\t"},
+	{`\\n`, `\n`}, {`\\u0041`, `\u0041`}, {`\\\"`, `\"`},
+	{`\u0041`, "\x41"}, {`\u0061`, "\x61"}, {`\u0031`, "\x31"}, {`\u0030`, "\x30"}, {`\u002e`, "\x2e"}, {`\u002E`, "\x2e"}, {`\u0022`, "\x22"},
+	{`\u005c`, "\x5c"}, {`\u005C`, "\x5c"}, {`\u0000`, "\x00"}, {`\u0001`, "\x01"}, {`\u000a`, "\x0a"}, {`\u000A`, "\x0a"}, {`\u001b`, "\x1b"},
+	{`\u001f`, "\x1f"}, {`\u007f`, "\x7f"}, {`\u0080`, "\xc2\x80"}, {`\u009f`, "\xc2\x9f"}, {`\u00a0`, "\xc2\xa0"}, {`\u00e9`, "\xc3\xa9"}, {`\u00E9`, "\xc3\xa9"},
+	{`\u07ff`, "\xdf\xbf"}, {`\u0800`, "\xe0\xa0\x80"}, {`\u20ac`, "\xe2\x82\xac"}, {`\u20AC`, "\xe2\x82\xac"}, {`\u2028`, "\xe2\x80\xa8"}, {`\ud7ff`, "\xed\x9f\xbf"}, {`\ue000`, "\xee\x80\x80"},
+	{`\ufeff`, "\xef\xbb\xbf"}, {`\ufffd`, "\xef\xbf\xbd"}, {`\ufffe`, "\xef\xbf\xbe"}, {`\uffff`, "\xef\xbf\xbf"},
+	// surrogate pairs
+	{`\ud83d\ude00`, "\xf0\x9f\x98\x80"}, {`\uD83D\uDE00`, "\xf0\x9f\x98\x80"}, {`\ud800\udc00`, "\xf0\x90\x80\x80"}, {`\udbff\udfff`, "\xf4\x8f\xbf\xbf"}, {`\ud834\udd1e`, "\xf0\x9d\x84\x9e"},
+	// lone and misordered surrogates: U+FFFD each
+	{`\ud800x`, "\xef\xbf\xbdx"}, {`\udbffx`, "\xef\xbf\xbdx"}, {`\udc00`, "\xef\xbf\xbd"}, {`\udfff`, "\xef\xbf\xbd"}, {`\udc00\ud800x`, "\xef\xbf\xbd\xef\xbf\xbdx"},
+	{`\ud800A`, "\xef\xbf\xbdA"}, {`\ud800\n`, "\xef\xbf\xbd\n"}, {`\ud800\\udc00`, "\xef\xbf\xbd\\udc00"}, {`\ud800\ud83d\ude00`, "\xef\xbf\xbd\xf0\x9f\x98\x80"},
+	{`\ud800\ud800x`, "\xef\xbf\xbd\xef\xbf\xbdx"}, {`\udc00\udc00`, "\xef\xbf\xbd\xef\xbf\xbd"}, {`\ud83d \ude00`, "\xef\xbf\xbd \xef\xbf\xbd"}, {`\ud83dude00`, "\xef\xbf\xbdude00"},
+	{`\ud800\ue000`, "\xef\xbf\xbd\xee\x80\x80"}, {`\ud800\ud7ff`, "\xef\xbf\xbd\xed\x9f\xbf"},
+	// UTF-8 written directly
+	{"\xc3\xa9", "\xc3\xa9"}, {"\xe2\x82\xac", "\xe2\x82\xac"}, {"\xf0\x9f\x98\x80", "\xf0\x9f\x98\x80"}, {"\xef\xbf\xbd", "\xef\xbf\xbd"}, {"\x7f", "\x7f"}, {"\xc2\x80", "\xc2\x80"},
+	{"\xe2\x80\xa8", "\xe2\x80\xa8"}, {"\xf4\x8f\xbf\xbf", "\xf4\x8f\xbf\xbf"}, {"\xed\x9f\xbf", "\xed\x9f\xbf"}, {"\xee\x80\x80", "\xee\x80\x80"}, {"\xef\xbb\xbf", "\xef\xbb\xbf"},
+	// invalid UTF-8: every byte that starts no valid sequence becomes U+FFFD
+	{"\xff", "\xef\xbf\xbd"}, {"\xfe", "\xef\xbf\xbd"}, {"\x80", "\xef\xbf\xbd"}, {"\xbf", "\xef\xbf\xbd"}, {"\xc0\x80", "\xef\xbf\xbd\xef\xbf\xbd"}, {"\xc1\xbf", "\xef\xbf\xbd\xef\xbf\xbd"},
+	{"\xe0\x80\x80", "\xef\xbf\xbd\xef\xbf\xbd\xef\xbf\xbd"}, {"\xe0\x9f\xbf", "\xef\xbf\xbd\xef\xbf\xbd\xef\xbf\xbd"}, {"\xed\xa0\x80", "\xef\xbf\xbd\xef\xbf\xbd\xef\xbf\xbd"}, {"\xed\xbf\xbf", "\xef\xbf\xbd\xef\xbf\xbd\xef\xbf\xbd"},
+	{"\xf0\x80\x80\x80", "\xef\xbf\xbd\xef\xbf\xbd\xef\xbf\xbd\xef\xbf\xbd"}, {"\xf0\x8f\xbf\xbf", "\xef\xbf\xbd\xef\xbf\xbd\xef\xbf\xbd\xef\xbf\xbd"}, {"\xf4\x90\x80\x80", "\xef\xbf\xbd\xef\xbf\xbd\xef\xbf\xbd\xef\xbf\xbd"},
+	{"\xf5\x80\x80\x80", "\xef\xbf\xbd\xef\xbf\xbd\xef\xbf\xbd\xef\xbf\xbd"}, {"\xf8\x88\x80\x80\x80", "\xef\xbf\xbd\xef\xbf\xbd\xef\xbf\xbd\xef\xbf\xbd\xef\xbf\xbd"},
+	{"\xc3x", "\xef\xbf\xbdx"}, {"\xe2\x82x", "\xef\xbf\xbd\xef\xbf\xbdx"}, {"\xf0\x9f\x98x", "\xef\xbf\xbd\xef\xbf\xbd\xef\xbf\xbdx"}, {"\xc3\\n", "\xef\xbf\xbd\n"}, {"\xe2\x82\\u0041", "\xef\xbf\xbd\xef\xbf\xbdA"},
+	{"\xc3\xc3\xa9", "\xef\xbf\xbd\xc3\xa9"}, {"\xe2\xc3\xa9", "\xef\xbf\xbd\xc3\xa9"}, {"\xc3\xa9\xa9", "\xc3\xa9\xef\xbf\xbd"},
+}
+
+func c18StressStr(r *Rng) c18Val {
+	var lit, want strings.Builder
+	lit.WriteByte('"')
+	for n := r.Intn(6); n > 0; n-- {
+		p := c18Pieces[r.Intn(len(c18Pieces))]
+		lit.WriteString(p.lit)
+		want.WriteString(p.want)
+	}
+	lit.WriteByte('"')
+	return c18Val{kind: 0, s: want.String(), lit: lit.String()}
+}
+
+// c18StressKey: the name spelled with some characters as \u00XX escapes (either hex case).
+func c18StressKey(r *Rng, k string) c18KV {
+	var sb strings.Builder
+	sb.WriteByte('"')
+	for i := 0; i < len(k); i++ {
+		c := k[i]
+		switch {
+		case c < 0x80 && r.Intn(3) == 0:
+			fmt.Fprintf(&sb, []string{"\\u%04x", "\\u%04X"}[r.Intn(2)], c)
+		case c == '"' || c == '\\' || c < 0x20:
+			fmt.Fprintf(&sb, "\\u%04x", c)
+		default:
+			sb.WriteByte(c)
+		}
+	}
+	sb.WriteByte('"')
+	return c18KV{k: k, klit: sb.String()}
+}
+
+type c18NumSpell struct {
+	lit  string
+	mant string // decimal integer
+	exp  int    // value = mant * 10^exp
+}
+
+var c18NumSpellings = []c18NumSpell{
+	{"1.7e9", "17", 8}, {"17E8", "17", 8}, {"0.17e10", "17", 8}, {"1700000000e0", "1700000000", 0}, {"1700000000E-0", "1700000000", 0},
+	{"170000000000e-2", "17", 8}, {"0.0000000017e18", "17", 8}, {"1.0e+9", "1", 9}, {"1e+09", "1", 9}, {"1E009", "1", 9}, {"1e9", "1", 9},
+	{"1700000000.0", "17", 8}, {"1700000000.000000000000000000000000000001", "1700000000000000000000000000000000000001", -30},
+	{"1699999999.999999999999999999999999999999", "1699999999999999999999999999999999999999", -30},
+	{"1700000000.5000000000000000000000000000000000001", "17000000005", -1}, {"1700000000.4999999", "17000000004999999", -7},
+	{"-0", "0", 0}, {"-0.0", "0", 0}, {"0e5", "0", 0}, {"0.0e-5", "0", 0}, {"0E+0", "0", 0}, {"-0e-0", "0", 0}, {"0.000", "0", 0},
+	{"1e-400", "1", -400}, {"-1e-400", "-1", -400}, {"4.9e-324", "49", -325}, {"2.4e-324", "24", -325}, {"1e-7", "1", -7}, {"-1e-7", "-1", -7}, {"0.9999999999999999999", "9999999999999999999", -19},
+	{"-0.9999999999999999999", "-9999999999999999999", -19}, {"0.99999999999999999999999", "99999999999999999999999", -23},
+	{"123456789012345678901234567890", "123456789012345678901234567890", 0}, {"-123456789012345678901234567890", "-123456789012345678901234567890", 0},
+	{"9007199254740993", "9007199254740993", 0}, {"18446744073709551616", "18446744073709551616", 0}, {"9223372036854775808", "9223372036854775808", 0},
+	{"1e22", "1", 22}, {"1e23", "1", 23}, {"1.7976931348623157e308", "17976931348623157", 292}, {"-1.7976931348623157e308", "-17976931348623157", 292},
+	{"253402300799.0", "253402300799", 0}, {"253402300799.9", "2534023007999", -1}, {"2.53402300799e11", "253402300799", 0}, {"253402300800e-0", "253402300800", 0},
+	{"-62135596800.0", "-62135596800", 0}, {"-62135596800.5", "-621355968005", -1}, {"-6.21355968e10", "-62135596800", 0},
+	{"-1.5", "-15", -1}, {"-0.5", "-5", -1}, {"-1.0", "-1", 0}, {"-86400.25", "-8640025", -2}, {"-1e0", "-1", 0}, {"-100e-2", "-1", 0},
+	{"1516239022", "1516239022", 0}, {"1516239022.000", "1516239022", 0}, {"15162390.22e2", "1516239022", 0}, {"4102444800", "4102444800", 0}, {"4.1024448E9", "4102444800", 0},
+}
+
+func c18StressNum(r *Rng) c18Val {
+	if r.Intn(8) == 0 { // a literal too long for the reference reader of the model (it leaves those to the library)
+		z := strings.Repeat("0", 1001+r.Intn(200))
+		if r.Bool() {
+			return c18Val{kind: 1, mant: 17, exp: 8, lit: "0." + z + "17e" + strconv.Itoa(len(z)+10)}
+		}
+		return c18Val{kind: 1, mant: 1700000000, exp: 0, lit: "1700000000." + z}
+	}
+	sp := c18NumSpellings[r.Intn(len(c18NumSpellings))]
+	m, _ := new(big.Int).SetString(sp.mant, 10)
+	if m.IsInt64() {
+		return c18Val{kind: 1, mant: m.Int64(), exp: sp.exp, lit: sp.lit}
+	}
+	return c18Val{kind: 1, exp: sp.exp, lit: sp.lit, bigm: m}
+}
+
+var c18StressArrays = []string{`[1e2,"\ud800",{"exp":1}]`, `[[[[[[[[[[]]]]]]]]]]`, "[ ]", "[\n1 ,\t2\r]", `["\u0000","\"",-0.0e-0]`, `[true,false,null]`, `[{"a":[{"b":[{"c":[]}]}]}]`,
+	`["]","}",",",":"]`, `[1E+2,1e-2,0.5,-0]`, "[\"\xff\"]", `[1e308,-1e308,1e-999]`}
+var c18StressObjects = []string{`{"a":{"a":{"a":{"a":{"a":{}}}}}}`, "{ }", "{\n\"a\" :\t1 ,\r\"b\":2 }", `{"":""}`, `{"a":1,"a":2,"a":[3]}`, `{"a":"\ud800"}`, `{"}":"{","]":"["}`,
+	`{"exp":1700000000,"sub":"nested","alg":"HS256"}`, "{\"\xff\":\"\xfe\"}", `{"x":[{"y":{"z":[1.5e300,"\\"]}}]}`}
+
+func c18StressOther(r *Rng) c18Val {
+	switch r.Intn(5) {
+	case 0:
+		return c18Val{kind: 4, lit: c18StressArrays[r.Intn(len(c18StressArrays))]}
+	case 1:
+		return c18Val{kind: 5, lit: c18StressObjects[r.Intn(len(c18StressObjects))]}
+	case 2:
+		d := 1 + r.Intn(60)
+		if r.Bool() {
+			return c18Val{kind: 4, lit: strings.Repeat("[", d) + strings.Repeat("]", d)}
+		}
+		return c18Val{kind: 5, lit: strings.Repeat(`{"k":`, d) + "0" + strings.Repeat("}", d)}
+	case 3:
+		return c18StressNum(r)
+	default:
+		return c18Other(r)
+	}
+}
+
+func c18StressObj(r *Rng, header bool) c18Obj {
+	var o c18Obj
+	names := c18Registered[:9]
+	if !header {
+		names = c18Registered[9:]
+	}
+	for k := 1 + r.Intn(4); k > 0; k-- {
+		n := names[r.Intn(len(names))]
+		if r.Intn(6) == 0 {
+			n = c18Registered[r.Intn(len(c18Registered))]
+		}
+		var v c18Val
+		switch {
+		case (n == "exp" || n == "nbf" || n == "iat") && r.Intn(3) > 0:
+			v = c18StressNum(r)
+		case r.Intn(4) == 0:
+			v = c18StressOther(r)
+		default:
+			v = c18StressStr(r)
+		}
+		kv := c18StressKey(r, n)
+		kv.v = v
+		o = append(o, kv)
+	}
+	for k := r.Intn(3); k > 0; k-- {
+		kv := c18StressKey(r, c18Unknown[r.Intn(len(c18Unknown))])
+		kv.v = c18StressOther(r)
+		o = append(o, kv)
+	}
+	return o
+}
+
+// texts that are not JSON objects although they come close: every one must be rejected as header and as payload
+var c18NotJSON = []string{
+	// string literals
+	`{"a":"\u12"}`, `{"a":"\u12G4"}`, `{"a":"\U0041"}`, `{"a":"\'"}`, `{"a":"\a"}`, `{"a":"\0"}`, `{"a":"\v"}`, `{"a":"\ "}`, "{\"a\":\"x\ny\"}", "{\"a\":\"x\ty\"}", "{\"a\":\"\x00\"}", "{\"a\":\"\x1f\"}",
+	"{\"a\":\"\r\"}", `{"a":"abc}`, `{"a":"\"}`, `{"a":"\ud800\u"}`, `{"a":"\ud800\udc0"}`, `{"a":'x'}`, `{"a\":1}`, `{'a':"x"}`, `{"a":"x""}`, `{"a":"\u"}`, `{"a":"\u+123"}`, `{"a":"\u 123"}`, `{"\u12":1}`, "{\"\n\":1}",
+	// numbers
+	`{"a":1.}`, `{"a":1.e5}`, `{"a":1e}`, `{"a":1e+}`, `{"a":1E-}`, `{"a":-}`, `{"a":--1}`, `{"a":0x10}`, `{"a":1_000}`, `{"a":Infinity}`, `{"a":-Infinity}`, `{"a":NaN}`, `{"a":1e5.5}`, `{"a":00}`, `{"a":-01}`,
+	`{"a":1.2.3}`, `{"a":0e}`, `{"a":1,5}`, `{"a":1 5}`, `{"a":١}`, `{"a":1f}`, `{"a":1d}`, `{"a":0.}`, `{"a":-.5}`, `{"a":+0}`, `{"a":1e1e1}`, `{"a":0b1}`, `{"a":1n}`, `{"a":012}`, `{"exp":1700000000.}`, `{"exp":017}`,
+	// literals
+	`{"a":nul}`, `{"a":nulll}`, `{"a":True}`, `{"a":NULL}`, `{"a":tru}`, `{"a":falsee}`, `{"a":undefined}`, `{"a":None}`, `{"a":FALSE}`, `{"a":n}`, `{"a":truefalse}`, `{"a":nil}`,
+	// structure
+	`{,}`, `{"a"}`, `{"a":}`, `{:1}`, `{"a":1 "b":2}`, `{"a":1,,"b":2}`, `{"a":[1,]}`, `{"a":[,1]}`, `{"a":[1 2]}`, `{"a":{]}`, `{"a":[}`, `{"a":[1}`, `{1:2}`, `{null:1}`, `{true:1}`, `{"a":1}}`, `[{"a":1}]`, `{{}}`,
+	`{"a":{"b"}}`, `{"a"::1}`, `{"a":1;"b":2}`, `{"a"=1}`, `{"a":[1,2}]`, `{"a":(1)}`, `{"a":1,"b"}`, `{"a":[]]}`, `{"a":{}}}`, `{[]:1}`, `{"a":1,}`, `{"a":[1,,2]}`, `{"a":{,}}`, `{"a":[:]}`, `"{}"`, `{}{}`, `{} {}`, `{}[]`, `{},`,
+	// white space that JSON does not know, comments, byte order marks
+	"\v{}", "\f{}", "{}\v", "{}\f", "\x00{}", "\xa0{}", "\xc2\xa0{}", "\xe2\x80\xa8{}", "{\v}", "{\"a\"\f:1}", "{\"a\":\v1}", "\xef\xbb\xbf{\"a\":1}", "{}\xef\xbb\xbf", "\xff\xfe{\x00}\x00", "{\x00}",
+	`{/*c*/}`, `{}//c`, `{"a":1 /*c*/}`, "{\"a\":1 //c\n}", `#{}`, `{}#`, "\x1f{}", "\x1c{}", "\x85{}", "{\"a\":1\x0b}",
+	// not objects
+	`"x"`, `0`, `-1`, `1e3`, `true`, `false`, `[1,2]`, `[[]]`, `nul`, `nullx`, `null null`, `nulL`, ` `, "\n", `""`,
+}
+
 // ---------- tokens ----------
 // c18Seg encodes raw in convention e (index into goEncs), optionally wrapped / with non-zero trailing bits.
 func c18Seg(r *Rng, raw []byte, e int, fancy bool) []byte {
@@ -467,6 +657,17 @@ func c18Emit(c *Ctx, tag string, kind int, t c18Tok) {
 		}
 		return ObsOk(SB(j.Signature))
 	}))
+	if orc := c18Oracle(tok).(SL); len(orc) > 0 {
+		// what the library answers for each decoded segment, computed again (the reference reader of the
+		// model is compared with it; the spec checker tests the first-byte hypothesis of C18_dispatch on it)
+		c.Emit("json:"+tag, in, guard(func() Sx {
+			l := SL{}
+			for _, e := range orc {
+				l = append(l, c18JRes([]byte(e.(SL)[0].(SB))))
+			}
+			return l
+		}))
+	}
 	reps := 3
 	if kind == 0 {
 		reps = 4
@@ -708,6 +909,81 @@ func genC18(c *Ctx) {
 				c18Emit(c, "near-trailing-data", 1, c18Tok{tok: tok})
 			}
 		}
+	}
+
+	// ---------------- the decoding rules of encoding/json ----------------
+	// escapes, surrogates, invalid UTF-8, spellings of numbers, nesting, names spelled with escapes
+	ns := 330
+	if c.Thorough() {
+		ns = 12000
+	}
+	for i := 0; i < ns; i++ {
+		c18Emit(c, "wf-json", 0, c18Build(r, c18StressObj(r, true), c18StressObj(r, false), r.Bytes(r.Intn(12)), true))
+	}
+	for _, p := range c18Pieces { // every piece once on its own, as a claim and as a date claim
+		v := c18Val{kind: 0, s: p.want, lit: `"` + p.lit + `"`}
+		c18Emit(c, "wf-json-piece", 0, c18Build(r, hs256, c18Obj{kv("sub", v), kv("exp", v)}, nil, false))
+	}
+	for _, sp := range c18NumSpellings {
+		m, _ := new(big.Int).SetString(sp.mant, 10)
+		v := c18Val{kind: 1, exp: sp.exp, lit: sp.lit, bigm: m}
+		if m.IsInt64() {
+			v = c18Val{kind: 1, mant: m.Int64(), exp: sp.exp, lit: sp.lit}
+		}
+		c18Emit(c, "wf-json-number", 0, c18Build(r, hs256, c18Obj{kv("iat", v), kv("jti", v)}, nil, false))
+	}
+	// nesting: 10000 levels are read, 10001 are an error of the library (not judged from the AST)
+	deep := func(d int) c18Val { return c18Val{kind: 4, lit: strings.Repeat("[", d) + strings.Repeat("]", d)} }
+	c18Emit(c, "wf-json-depth", 0, c18Build(r, hs256, c18Obj{kv("aud", deep(9999)), kv("sub", c18PS("deep"))}, nil, false))
+	c18Emit(c, "mal-json-depth", 2, c18Tok{tok: c18Build(r, hs256, c18Obj{kv("aud", deep(10000))}, nil, false).tok})
+	for i, bad := range c18NotJSON {
+		for k := 0; k < 2; k++ {
+			if !c.Thorough() && (i+k)%2 == 1 && r.Intn(3) > 0 {
+				continue
+			}
+			b := c18Seg(r, []byte(bad), r.Intn(4), false)
+			good := c18Seg(r, []byte(`{"alg":"none"}`), r.Intn(4), false)
+			tok := c18Join(b, good, []byte("AA"))
+			if k == 1 {
+				tok = c18Join(good, b, []byte("AA"))
+			}
+			c18Emit(c, "near-not-json", 1, c18Tok{tok: tok})
+		}
+	}
+
+	// the JSON text itself mutated before it is encoded (not judged from the AST: the reference reader of
+	// the model and the library must agree on whether it still is an object, and on its members)
+	nj := 250
+	if c.Thorough() {
+		nj = 10000
+	}
+	jalpha := []byte("{}[],:\"\\ue0123456789.-+ntfalsr \n\t\x00\xff\x80/")
+	for i := 0; i < nj; i++ {
+		txt := c18StressObj(r, r.Bool()).text(r, r.Bool())
+		for k := 1 + r.Intn(3); k > 0 && len(txt) > 0; k-- {
+			pos := r.Intn(len(txt))
+			switch r.Intn(4) {
+			case 0:
+				txt = append(txt[:pos:pos], txt[pos+1:]...)
+			case 1:
+				txt = append(append(append([]byte{}, txt[:pos]...), r.Pick(jalpha)), txt[pos:]...)
+			case 2:
+				txt = append([]byte{}, txt...)
+				txt[pos] = r.Pick(jalpha)
+			default: // swap two neighbours
+				txt = append([]byte{}, txt...)
+				if pos+1 < len(txt) {
+					txt[pos], txt[pos+1] = txt[pos+1], txt[pos]
+				}
+			}
+		}
+		good := c18Seg(r, []byte(`{"alg":"none"}`), r.Intn(4), false)
+		bad := c18Seg(r, txt, r.Intn(4), false)
+		tok := c18Join(bad, good, []byte("AA"))
+		if r.Bool() {
+			tok = c18Join(good, bad, []byte("AA"))
+		}
+		c18Emit(c, "mal-json-mutated", 2, c18Tok{tok: tok})
 	}
 
 	// ---------------- malformed stream: not judged from the AST ----------------
